@@ -12,7 +12,7 @@ use crate::{
 /// machinery panics). A label which starts, or extends, that far into its line is attached to the start of the line instead.
 const MAX_LABEL_COLUMN: usize = 16_000;
 
-fn label_at(span: Span, src: &str, text: impl Into<String>) -> LabeledSpan {
+pub(crate) fn label_at(span: Span, src: &str, text: impl Into<String>) -> LabeledSpan {
     let offs = span.offs().min(src.len());
     let line_start = src.as_bytes()[..offs]
         .iter()
